@@ -317,7 +317,8 @@ def run_router(desc, ctx):
             ob['err'] = repr(e)
         finally:
             tr.socket = old
-    _, abort, sch = harness.sched_case(fn, seed=desc['seed'], policy='random', horizon=500.0)
+    _, abort, sch = harness.sched_case(fn, seed=desc['seed'], policy='random', line_p=harness.line_p_for(desc['seed'], 4, 0.15), horizon=500.0, max_steps=12_000_000)
+    ctx.count('mon.statement_level_preemption_points', sch.line_points)
     ctx.evals()
     if abort is not None or ob['err']:
         ctx.violate('cpx:router-hang-or-error', {'abort': str(abort), 'error': ob['err']})
@@ -385,7 +386,8 @@ def run_tcp(desc, ctx):
             ob['err'] = repr(e)
         finally:
             tr.socket = old
-    _, abort, sch = harness.sched_case(fn, seed=desc['seed'], policy='random', horizon=500.0)
+    _, abort, sch = harness.sched_case(fn, seed=desc['seed'], policy='random', line_p=harness.line_p_for(desc['seed'], 4, 0.15), horizon=500.0, max_steps=12_000_000)
+    ctx.count('mon.statement_level_preemption_points', sch.line_points)
     ctx.evals()
     if abort is not None or ob['err']:
         ctx.violate('tcp:driver-hang-or-error', {'abort': str(abort), 'error': str(ob['err'])[:400]})
@@ -520,7 +522,8 @@ def run_serial(desc, ctx):
                 del sd.list_ports
             else:
                 sd.list_ports = old[1]
-    _, abort, sch = harness.sched_case(fn, seed=desc['seed'], policy='random', horizon=500.0)
+    _, abort, sch = harness.sched_case(fn, seed=desc['seed'], policy='random', line_p=harness.line_p_for(desc['seed'], 4, 0.15), horizon=500.0, max_steps=12_000_000)
+    ctx.count('mon.statement_level_preemption_points', sch.line_points)
     ctx.evals()
     if abort is not None or ob['err']:
         ctx.violate('serial:driver-hang-or-error', {'abort': str(abort), 'threads': getattr(abort, 'table', None),
